@@ -21,7 +21,7 @@ from harness import constraints_lib as cl
 from harness import verify_session as vs
 
 FIELD_NAMES = ['f', 'naïve ☃', 'with "quote"', 'back\\slash', 'line sep', ' sp ', '1',
-               'cafe\u0301 prix', 'A\u030angstro\u0308m', '\uff21\uff22 full width']      # (decomposed / compatibility forms: a name is its code points)
+               'cafe\u0301 prix', 'A\u030angstro\u0308m', '\uff21\uff22 full width', '\ufeffid', 'zero\u200bwidth']      # (decomposed / compatibility forms: a name is its code points)
 
 CONCRETE = {
     'int': [0, 7, -3, 2**53 + 1, 10**30],
@@ -229,15 +229,17 @@ def cycle_check(chk, d, root, tag, rnd, sigbase, witness, cycles=2, df=None, ori
             try:
                 v_path = verdicts(df, p)
                 v_dict = verdicts(df, strict_or_plain(text))
+                # "re-serialised from a loaded object": the dictionary exactly as to_dict() hands it out (an OrderedDict)
+                v_obj = verdicts(df, dc2.to_dict())
             except Exception as ex:
-                v_path = v_dict = ('raised', type(ex).__name__)
-            if v_path != base_verdicts or v_dict != base_verdicts:
+                v_path = v_dict = v_obj = ('raised', type(ex).__name__)
+            if v_path != base_verdicts or v_dict != base_verdicts or v_obj != base_verdicts:
                 e['sameverdicts'] = False
-                e['verdicts'] = json.loads(json.dumps([base_verdicts, v_path, v_dict], default=str))
+                e['verdicts'] = json.loads(json.dumps([base_verdicts, v_path, v_dict, v_obj], default=str))
                 try:
                     fa = base_verdicts[0]
                     e['differing_fields'] = sorted(f for f in fa if any(isinstance(o, tuple) and isinstance(o[0], dict) and o[0].get(f) != fa[f]
-                                                                      for o in (v_path, v_dict)))
+                                                                      for o in (v_path, v_dict, v_obj)))
                     e['against_origin'] = origin is not None
                 except Exception:
                     pass
